@@ -189,6 +189,89 @@ def gen_population(rng, nmax):
 
 
 # ----------------------------------------------------------------------------------------------
+# the sorter under test: every public construction of a Selector (red-team round 4)
+SEL_PARAMS = [{'name': 'x_1', 'initial_value': 2.5, 'bounds': [0, 5]}, {'name': 'x_2', 'initial_value': 1.5, 'bounds': [0, 3]}]
+EPS_LISTS = [[0.01, 0.01], [0.5], [1.0, 0.1, 2.0], [0.25, 4.0], [1e-6], [3.0, 3.0, 3.0, 3.0], 0.1, [1e3, 1e-3]]
+
+
+def selector_specs():
+    specs = [{"class": "TournamentSelector", "parameters": "empty"},          # first = the stream's long-lived default
+             {"class": "TournamentSelector"},
+             {"class": "TournamentSelector", "dominance": "ParetoDominance"},
+             {"class": "TournamentSelector", "dominance": "ParetoDominance", "epsilons": [0.01, 0.01]},
+             {"class": "TournamentSelector", "epsilons": [0.5]},
+             {"class": "DummySelector"}, {"class": "CopySelector"}]
+    for e in EPS_LISTS:
+        specs.append({"class": "TournamentSelector", "dominance": "EpsilonDominance", "epsilons": e})
+        specs.append({"class": "TournamentSelector", "dominance": "EpsilonDominance", "epsilons": e, "positional": True})
+    return specs
+
+
+def make_selector(ops, spec):
+    cls = getattr(ops, spec["class"])
+    params = [] if spec.get("parameters") == "empty" else [dict(p) for p in SEL_PARAMS]
+    kw = {}
+    if "dominance" in spec:
+        kw["dominance"] = getattr(ops, spec["dominance"])
+    if "epsilons" in spec:
+        kw["epsilons"] = list(spec["epsilons"]) if isinstance(spec["epsilons"], list) else spec["epsilons"]
+    if spec.get("positional"):
+        return cls(params, kw["dominance"], kw["epsilons"])
+    return cls(params, **kw)
+
+
+def selector_label(spec):
+    if spec.get("from"):
+        return spec["from"]
+    return spec["class"] + ("(%s)" % spec["dominance"] if "dominance" in spec else "") + ("+epsilons" if "epsilons" in spec else "")
+
+
+def algorithm_selectors():
+    """the Selector objects the algorithms of the package build for themselves (constructor, or run() of a tiny job)"""
+    import logging
+    out = []
+    logging.disable(logging.CRITICAL)
+    try:
+        from artap.problem import Problem
+
+        class _P(Problem):
+            def set(self):
+                self.parameters = [dict(p) for p in SEL_PARAMS]
+                self.costs = [{'name': 'f_1'}, {'name': 'f_2'}]
+
+            def evaluate(self, individual):
+                x = individual.vector
+                return [x[0] ** 2 + x[1], (x[0] - 2) ** 2 + x[1]]
+        import artap.algorithm_swarm as sw
+        for name in ("OMOPSO", "SMPSO", "PSOGA"):
+            try:
+                alg = getattr(sw, name)(_P())
+                for attr in ("selector", "offspring_selector"):
+                    if getattr(alg, attr, None) is not None:
+                        out.append((getattr(alg, attr), {"class": type(getattr(alg, attr)).__name__, "from": "%s.%s" % (name, attr)}))
+            except Exception:
+                pass
+        from artap.algorithm_NSGAII import NSGAII
+        from artap.algorithm_genetic import EpsMOEA
+        for name, A in (("NSGAII", NSGAII), ("EpsMOEA", EpsMOEA)):
+            try:
+                alg = A(_P())
+                alg.options['max_population_number'] = 1
+                alg.options['max_population_size'] = 4
+                alg.options['verbose_level'] = 0
+                alg.run()
+                if getattr(alg, "selector", None) is not None:
+                    out.append((alg.selector, {"class": type(alg.selector).__name__, "from": "%s.selector after run()" % name}))
+            except Exception:
+                pass
+    except Exception:
+        pass
+    finally:
+        logging.disable(logging.NOTSET)
+    return out
+
+
+# ----------------------------------------------------------------------------------------------
 # start-up scenarios, each in its own fresh interpreter: all id state of all Individual classes is in its initial state,
 # seeds / algorithm individuals / reloaded individuals are created block-wise exactly as a run does (no harness tricks)
 FRESH_SCRIPT = r"""
@@ -282,16 +365,41 @@ def run(ctx):
     nmax = ctx.pick(12, 40)
     n_shuffles = 4
 
-    class Params:            # Selector only stores it
-        pass
-    selector = ops.TournamentSelector([])
+    # ---- the sorter under test: EVERY public construction of a Selector (red-team round 4) ------------------------------
+    # fast_nondominated_sorting is a method of the base class; in the unchanged code every construction the package offers
+    # (TournamentSelector with any dominance= / epsilons=, DummySelector, CopySelector, the selectors the algorithms build)
+    # sorts with ParetoDominance: dominance= / epsilons= of TournamentSelector configure the binary tournament of select()
+    # only.  The model is therefore the Pareto sorter for every one of them.
+    sel_stats = {}
+    pool = {}
+
+    def selector_for(spec):
+        """spec -> (selector object, its description); long-lived per spec (rule 1) or freshly constructed (30 %)"""
+        key = json_line(spec)
+        if key in pool and rng.random() < 0.7:
+            return pool[key]
+        pool[key] = make_selector(ops, spec)
+        return pool[key]
+
+    SELECTOR_SPECS = selector_specs()
+    algo_selectors = []          # filled after the start-up block below (building them creates Individuals)
+    selector = make_selector(ops, SELECTOR_SPECS[0])
     assert type(selector.comparator) is ops.ParetoDominance
+
+    def pick_selector():
+        r = rng.random()
+        if r < 0.25:
+            return selector, SELECTOR_SPECS[0]        # ONE default selector for the whole stream, as the algorithms do
+        if r < 0.35 and algo_selectors:
+            return rng.choice(algo_selectors)
+        spec = rng.choice(SELECTOR_SPECS)
+        return selector_for(spec), spec
 
     cases, expected, meta = [], [], []
     stats = {"template": {}, "markers": {}, "size": {}, "objectives": {}, "max_rank": {}, "with_duplicates": 0,
              "with_domination": 0, "with_incomparable_pair": 0, "stale_features": 0, "scrambled_ids": 0,
              "order_checks": 0, "classes": {}, "vectors": {}, "constructed_by": {}, "populations_with_two_or_more_classes": 0,
-             "id_collisions": 0}
+             "id_collisions": 0, "selector": {}, "tournaments_before_sorting": 0}
 
     def bump(d, k):
         d[str(k)] = d.get(str(k), 0) + 1
@@ -356,8 +464,10 @@ def run(ctx):
                 model_ids.append(i - base)
         return model_ids, len(seen) < len(raw)
 
-    def implementation(pop, ids_mode, stale, cmode="plain", vmode="costs"):
+    def implementation(pop, ids_mode, stale, cmode="plain", vmode="costs", chosen=None):
         """Runs the real sorter on real Individuals; returns the observation (ids relative to the case)."""
+        selector, spec = chosen or pick_selector()
+        tournaments = rng.random() < 0.3
         inds, classes, routes = [], [], []
         one = rng.choice(CNAMES[1:])
         gridv = [[rng.choice([0.0, 0.5, 1.0]) for _ in range(2)] for _ in range(3)]
@@ -383,6 +493,15 @@ def run(ctx):
         # the later object gets a fresh id on the model side, so the model ranks per object and every consequence of the
         # collision (wrong counter decremented, dominate lists naming the wrong member) is a difference.
         model_ids, collision = model_ids_of(raw, base)
+        if tournaments and len(inds) >= 1:   # the selector has been USED for what dominance= / epsilons= configure, before it sorts
+            other = list(inds)
+            rng.shuffle(other)
+            try:
+                selector.fast_nondominated_sorting(other)
+                for _ in range(3):
+                    selector.select(other)
+            except Exception:
+                pass                       # the tournament is not C02's subject; the sort proper is reported below
         if stale == "presorted":           # features left by an earlier sort of the same objects in another order
             other = list(inds)
             rng.shuffle(other)
@@ -433,7 +552,7 @@ def run(ctx):
         finally:
             ops.crowding_distance = real_cd
         return {"ids": model_ids, "raw_ids": [i - base for i in raw], "classes": classes, "routes": routes,
-                "id_collision": collision,
+                "id_collision": collision, "selector": dict(spec, tournaments_before=tournaments),
                 "front": [x.features["front_number"] for x in inds],
                 "counter": [x.features["domination_counter"] for x in inds],
                 "dominate": [[i - base for i in x.features["dominate"]] for x in inds],
@@ -461,7 +580,7 @@ def run(ctx):
         assert fr == ranks
         return True
 
-    def add_case(pop, tname, mkind, ids_mode="real", stale="fresh", cmode="plain", vmode="costs", given=None):
+    def add_case(pop, tname, mkind, ids_mode="real", stale="fresh", cmode="plain", vmode="costs", given=None, chosen=None):
         inp = {"population_costs_signed": [list(c) + [mk] for c, mk in pop], "ids": ids_mode, "stale_features": stale,
                "classes": cmode, "vectors": vmode}
         try:
@@ -475,8 +594,9 @@ def run(ctx):
                        "routes": [], "id_collision": collision, "front": given["front"], "counter": given["counter"],
                        "dominate": [[i - base for i in l] for l in given["dominate"]], "fronts": given["fronts"]}
             else:
-                obs = implementation(pop, ids_mode, stale, cmode, vmode)
-            inp.update(member_classes=obs["classes"], member_ids=obs["raw_ids"], constructed_by=obs["routes"])
+                obs = implementation(pop, ids_mode, stale, cmode, vmode, chosen)
+            inp.update(member_classes=obs["classes"], member_ids=obs["raw_ids"], constructed_by=obs["routes"],
+                       selector=obs.get("selector"))
         except Exception as e:      # the sorter must rank every population; a crash leaves everybody unranked
             ctx.count(None, nontrivial=False)
             ctx.oracle_failures.append({"what": "the sorter raised %r: no individual is ranked" % (e,), "input": inp,
@@ -511,6 +631,9 @@ def run(ctx):
         bump(stats["markers"], mkind)
         bump(stats["classes"], cmode)
         bump(stats["vectors"], vmode)
+        if obs.get("selector"):
+            bump(stats["selector"], selector_label(obs["selector"]))
+            stats["tournaments_before_sorting"] += bool(obs["selector"].get("tournaments_before"))
         for r in obs["routes"]:
             bump(stats["constructed_by"], r)
         if len(set(obs["classes"])) > 1:
@@ -572,6 +695,18 @@ def run(ctx):
             add_case(list(reversed(pop)), "corpus", "corpus", "scrambled", "fresh")
             add_case(pop, "corpus", "corpus", "real", "fresh", "mixed", "same")
             add_case(list(reversed(pop)), "corpus", "corpus", "real", "presorted", "mixed", "grid")
+
+    algo_selectors.extend(algorithm_selectors())
+    # every construction of the sorter on the corpus populations with duplicated cost vectors (a comparator that breaks
+    # ties between equal vectors shows there), fresh object per case and the long-lived one
+    for spec in SELECTOR_SPECS:
+        for k in (3, 6, 7):
+            add_case(corpus[k], "corpus", "corpus", "real", "fresh", chosen=(make_selector(ops, spec), spec))
+        add_case(list(reversed(corpus[7])), "corpus", "corpus", "real", "presorted", "mixed", "same", chosen=(selector_for(spec), spec))
+    for chosen in algo_selectors:
+        for k in (3, 7):
+            add_case(corpus[k], "corpus", "corpus", "real", "fresh", chosen=chosen)
+    stats["algorithm_built_selectors"] = [sp["from"] for _, sp in algo_selectors]
 
     for _ in range(n_pops):
         tname, mkind, pop = gen_population(rng, nmax)
@@ -660,9 +795,16 @@ def replay(ctx, data):
     pops += [([x["costs_signed"] for x in m["case"]["population"]], [x.get("class", "Individual") for x in m["case"]["population"]])
              for m in data.get("correspondence_mismatches", [])
              if isinstance(m.get("case"), dict) and "population" in m["case"]]
+    specs = [f["input"].get("selector") for f in data.get("failing_inputs", []) if "population_costs_signed" in f.get("input", {})]
+    specs += [(m["case"].get("observed") or {}).get("selector") for m in data.get("correspondence_mismatches", [])
+              if isinstance(m.get("case"), dict) and "population" in m["case"]]
     bad = 0
-    for rows, classes in pops[:5]:
+    for (rows, classes), spec in zip(pops[:5], specs):
         pop = [(r[:-1], r[-1]) for r in rows]
+        if spec and not spec.get("from"):         # the sorter is rebuilt the way the failing case constructed it
+            selector = make_selector(ops, spec)
+        else:
+            selector = ops.TournamentSelector([])
         inds = []
         # members are rebuilt as objects of the recorded classes, in population order, with the ids the code gives them
         for (c, mk), cname in zip(pop, classes or ["Individual"] * len(pop)):
@@ -677,7 +819,7 @@ def replay(ctx, data):
         required, _ = tb_ranks(pop)
         case = ll([pl(nl(i), pl(ll(c, fl), zl(mk))) for i, (c, mk) in enumerate(pop)])
         model = ctx.coq_eval("c02_replay", HEADER, ["match c02_run %s with Some o => Some (o_front o) | None => None end" % case])[0]
-        print(json_line({"population_costs_signed": rows, "classes": [type(x).__name__ for x in inds], "ids": [x.id for x in inds],
+        print(json_line({"population_costs_signed": rows, "selector": spec, "classes": [type(x).__name__ for x in inds], "ids": [x.id for x in inds],
                          "implementation": observed, "required": required, "model": model}))
         bad += observed != required
     print("C02 replay: %d of %d stored inputs still violate the property" % (bad, len(pops[:5])))
